@@ -5439,6 +5439,11 @@ write_function_instance(ostream &out, FunctionRemap *remap,
     string default_expr;
     const char *null_assign = "";
 
+    if (is_optional && default_value == nullptr) {
+      // Can only happen for a parameter list the parser did not understand.
+      is_optional = false;
+    }
+
     if (is_optional) {
       // If this is an optional argument, PyArg_ParseTuple will leave the
       // variable unchanged if it has been omitted, so we have to initialize
